@@ -176,3 +176,8 @@ pub assume_specification<T, E, F>[ Result::<T, E>::unwrap_or_else ](r: Result<T,
     where F: FnOnce(E) -> T + core::marker::Destruct
     requires r is Err ==> call_requires(f, (r->Err_0,)),
     ensures match r { Ok(t) => o == t, Err(e) => call_ensures(f, (e,), o) };
+
+// P8 `Path::is_file` (follows links): a static file-system fact of the path
+pub uninterp spec fn fs_is_file(p: PV) -> bool;
+pub assume_specification[ Path::is_file ](p: &Path) -> (r: bool)
+    ensures r == fs_is_file(pv(p));
